@@ -60,6 +60,25 @@ pub fn run(ctx: &Ctx, rep: &mut Report) {
                 break l;
             }
         });
+        // a quarter of the expressions carry a user string that spells a placeholder of some templating
+        // scheme (generated family): rendering must not touch it
+        let e = if i % 4 == 0 {
+            let fam = placeholder_family();
+            let f = &fam[r.usize(fam.len())];
+            let s = if r.chance(1, 2) { f.clone() } else { format!("backup{}0003*", f) };
+            use lipe_find_parser::ast::{Action, Test};
+            let extra = match r.below(5) {
+                0 => t(Test::Name(s)),
+                1 => t(Test::InsensitivePath(s)),
+                2 => t(Test::Pool(s)),
+                3 => t(Test::XattrMatch("user.k".into(), s)),
+                _ => act(Action::FilePrint(s)),
+            };
+            rep.count("expressions_with_placeholder_spelling");
+            if r.chance(1, 2) { and(extra, e) } else { or(e, extra) }
+        } else {
+            e
+        };
         rep.evaluations += 1;
         let p1 = paths(&mut r);
         let mut p2 = paths(&mut r);
